@@ -6,6 +6,12 @@ All theorems hold for EVERY clock function and EVERY list of batches (the enviro
 `l : List Int` are the per-command extra timeouts, the burst has `l.length` commands.
 Helper definitions (`ext`, `calledOf`, `sendKeys`, `WF`, `Reach`) and the history invariant
 are in `RigModel.Lemmas.C06`.
+
+Termination (`terminates_under_progress`, `terminates_under_select`) is proved under explicit
+hypotheses about the operating system (`Progress`, `ProgressWeak`; predicates `timedOut`,
+`timedOutWeak`, `alongRun` in the model file, lemmas in `RigModel.Lemmas.C06Term`).
+The composition with C07 (`read_through_burst`, `write_through_burst`: `SCPConnection.read` / `write`
+as bursts of C07's chunks) uses `RigModel.Lemmas.C06Compose` and the C07 exactness theorems.
 -/
 import RigModel.Lemmas.C06
 import RigModel.Lemmas.C06Term
@@ -644,6 +650,51 @@ theorem write_through_burst_partial (h : WF cfg) {buf addr : Nat} {data : List N
   · exact Or.inr (sp.2 hin)
 
 end compose
+
+/-- **`SCPConnection.read`, total.** Both results together: if the OS provides progress (`Progress`,
+for the burst of the read's chunks) and the network/machine satisfy the hypotheses of
+`read_through_burst` on the first `N = chunks * n_tries + D + 1` batches, then within `N` loop
+iterations `read` either returns exactly the bytes of memory `[addr, addr + len)`, or raises
+`TimeoutError` / `FatalReturnCodeError`; it never runs on and never fails in a callback. -/
+theorem read_through_burst_total {cfg : Cfg} {clock : Nat → Int} {s0 : Nat} (h : WF cfg) {buf addr len : Nat}
+    (hb : 0 < buf) (m : C07.Mem) {env : Nat → List Dgram} {D : Nat}
+    (hp : Progress cfg (chunkTimeouts (C07.read buf addr len)) clock s0 env D)
+    (origin : Nat → Option Nat) (payload : Nat → List Nat)
+    (netOK : ∀ d ∈ (firstBatches env ((C07.read buf addr len).length * cfg.nTries + D + 1)).flatten,
+      ∀ j, origin d.id = some j → ∃ t, Ev.send d.seq j 1 t ∈
+        (run cfg (ext (chunkTimeouts (C07.read buf addr len))) clock (St.init s0)
+          (firstBatches env ((C07.read buf addr len).length * cfg.nTries + D + 1))).2.1)
+    (hlen : (C07.read buf addr len).length ≤ cfg.modulus)
+    (fresh : ∀ d ∈ (firstBatches env ((C07.read buf addr len).length * cfg.nTries + D + 1)).flatten,
+      origin d.id = none → ∀ c t, Ev.send d.seq c 1 t ∉
+        (run cfg (ext (chunkTimeouts (C07.read buf addr len))) clock (St.init s0)
+          (firstBatches env ((C07.read buf addr len).length * cfg.nTries + D + 1))).2.1)
+    (hpay : ∀ d ∈ (firstBatches env ((C07.read buf addr len).length * cfg.nTries + D + 1)).flatten,
+      d.rc = rcOk → ∀ j ch, origin d.id = some j →
+      (C07.read buf addr len)[j]? = some ch → payload d.id = C07.readMem m ch.addr ch.size) :
+    (let r := readThrough cfg clock s0
+        (firstBatches env ((C07.read buf addr len).length * cfg.nTries + D + 1)) payload buf addr len
+     r = .ok (C07.readMem m addr len) ∨ (∃ c, r = .burst (.timeout c)) ∨ (∃ rc c, r = .burst (.fatal rc c))) := by
+  have hN : (chunkTimeouts (C07.read buf addr len)).length * cfg.nTries + D + 1 =
+      (C07.read buf addr len).length * cfg.nTries + D + 1 := by rw [chunkTimeouts_length]
+  have ht := (terminates_under_progress h hp).1
+  rw [hN] at ht
+  have hr := read_through_burst (cfg := cfg) (clock := clock) (s0 := s0)
+    (batches := firstBatches env ((C07.read buf addr len).length * cfg.nTries + D + 1))
+    (st := (run cfg (ext (chunkTimeouts (C07.read buf addr len))) clock (St.init s0)
+          (firstBatches env ((C07.read buf addr len).length * cfg.nTries + D + 1))).1)
+    (evs := (run cfg (ext (chunkTimeouts (C07.read buf addr len))) clock (St.init s0)
+          (firstBatches env ((C07.read buf addr len).length * cfg.nTries + D + 1))).2.1)
+    (res := (run cfg (ext (chunkTimeouts (C07.read buf addr len))) clock (St.init s0)
+          (firstBatches env ((C07.read buf addr len).length * cfg.nTries + D + 1))).2.2)
+    h hb m rfl origin payload netOK hlen fresh hpay
+  simp only at ht ⊢
+  rcases ht with hd | ⟨c, hc⟩ | ⟨rc, c, hc⟩
+  · exact Or.inl (hr.2.1 hd)
+  · refine Or.inr (Or.inl ⟨c, ?_⟩)
+    rw [hr.2.2 (by rw [hc]; simp), hc]
+  · refine Or.inr (Or.inr ⟨rc, c, ?_⟩)
+    rw [hr.2.2 (by rw [hc]; simp), hc]
 
 /-! ### without freshness the own-reply clause fails: sequence-number wrap-around -/
 
